@@ -196,6 +196,5 @@ void h_remove(void) {
             if (dk && dv) CANARY("remove: removed, both destructors ran");
             else CANARY("remove: removed");
         }
-        if (g0.present && !sp_keq(gk, key) && sp_find(st, HT_NS, gk) != sp_find(st, HT_NS, gk)) CANARY("unreachable");
     }
 }
